@@ -108,6 +108,26 @@ def run_tables(job, ctx):
             if not tries:
                 tries.append({'query': None, 'observed': 'all templates passed'})
             ctx.observe(key=key, cell='%s:%s:%s' % (cu, mt, kind), sample={'entry': key, 'tried': tries[-1]})
+            if ok and any(ch in '123456789' for ch in form):
+                # a spelling that contains a digit (m2, cm3, km^2): the numeral equal to that digit must keep the unit as well
+                for dgt in sorted({ch for ch in form if ch in '123456789'}):
+                    got_ok, seen = False, None
+                    for sep in ([' ', ''] if not (cjk and not form[0].isascii()) else ['', ' ']):
+                        q = '%s%s%s' % (dgt, sep, form) if kind == 'suffix' else '%s%s%s' % (form, sep, dgt)
+                        try:
+                            res = m.parse(q)
+                        except Exception as e:
+                            seen = repr(e)
+                            continue
+                        ctx.event('boundary_calls')
+                        seen = [lib.ent(e) for e in res]
+                        if len(res) == 1 and (res[0].start, res[0].end) == (0, len(q) - 1) and res[0].resolution and res[0].resolution.get('value') == dgt and res[0].resolution.get('unit') in accept:
+                            got_ok = True
+                            break
+                    ctx.observe(key=key + '|digit' + dgt, cell='%s:%s:%s' % (cu, mt, kind))
+                    if not got_ok:
+                        ctx.fail('numeral-equal-to-a-digit-of-the-spelling', where, key + '|digit' + dgt, {'culture': cu, 'model': mt, 'kind': kind, 'unit': unit, 'form': form, 'query': q},
+                                 {'unit': sorted(accept), 'value': dgt}, seen)
             if not ok:
                 last = tries[-1] if tries else {}
                 ents = last.get('observed') or []
